@@ -264,6 +264,10 @@ static jwk_item_t key_before, key2_before;
 static unsigned char oct_before[4];
 #endif
 
+#ifdef PROP_C06_MEM
+static long live_before, vj_before;
+#endif
+
 /* configuration chosen by the harness */
 static int have_key, via_cb, have_cb;
 static jwt_alg_t cfg_alg;
@@ -513,6 +517,10 @@ int main(void)
 	c18_havoc();
 	c18_snapshot();
 #endif
+#ifdef PROP_C06_MEM
+	live_before = vf_live;
+	vj_before = vj_live;
+#endif
 #ifdef FAULT_K
 	/* C17: the FAULT_K-th allocation request made by the call under test returns NULL */
 	vf_alloc_no = 0;                 /* concrete request index from here on */
@@ -723,6 +731,15 @@ int main(void)
 			PROP(jwt_checker_error_msg(chk)[0] != '\0', "C17: a failure caused by an allocation fault carries a message");
 		REACHF(vf_faulted && v != 0, "fault injected and reported");
 		REACHF(vf_faulted && v == 0, "fault injected, verification unaffected");
+#endif
+
+#ifdef PROP_C06_MEM
+		/* per-call objects (token copy, decode buffers, the jwt_t and its JSON trees) are all
+		 * released on every path: the live counters are back to their entry values.  CBMC's own
+		 * bounds / pointer / double-free checks are active in this query (exact allocator). */
+		PROP(vf_live == live_before && vj_live == vj_before, "C06: jwt_checker_verify releases every per-call allocation (no leak, nothing released twice)");
+		REACH(v == 0, "accepted");
+		REACH(v != 0 && ndots >= 2 && hs.called && hs.is_null, "rejected on a header that is not JSON");
 #endif
 
 #ifdef PROP_C06
